@@ -111,12 +111,19 @@ def c16_input(w, inp):
         if sec is None:
             w.violation('C16:output-not-in-expected-shape', inp, {'stdout': out[:400]})
             return
-        got, e = try_(eval, sec['repr'], dict(vars(code_data), nan=float('nan'), inf=float('inf'), Ellipsis=Ellipsis))
-        if e is not None:
-            w.violation('C16:printed-repr-does-not-evaluate', inp, {'error': O.exc_str(e), 'repr': sec['repr'][:300]})
-            return
-        if got != want or ser.s_data(got) != ser.s_data(want):
-            w.violation('C16:printed-data-differs-from-api', inp, {'first_difference': data_diff(want, got)})
+        # what is printed is the text of the API's value: compared as text first (exact; repr() itself cannot express the
+        # sign of a complex zero or of a NaN, so evaluating it back would not be), and only when the text is laid out
+        # differently (rich installed) by evaluating it
+        if sec['repr'].strip() == repr(want):
+            w.stats['printed_text_equals_repr'] += 1
+        else:
+            nan, inf = float('nan'), float('inf')
+            got, e = try_(eval, sec['repr'], dict(vars(code_data), nan=nan, inf=inf, nanj=complex(0, nan), infj=complex(0, inf), Ellipsis=Ellipsis))
+            if e is not None:
+                w.violation('C16:printed-repr-does-not-evaluate', inp, {'error': O.exc_str(e), 'repr': sec['repr'][:300]})
+                return
+            if got != want or repr(got) != repr(want):
+                w.violation('C16:printed-data-differs-from-api', inp, {'first_difference': data_diff(want, got)})
         if '--json' in flags:
             j, e = try_(json.loads, sec['json'])
             y, e2 = (None, e) if e is not None else try_(CodeData.from_json_data, j)
